@@ -3,6 +3,6 @@
 P="$1"; ID="$2"; TIER="${3:-quick}"
 cd /verif
 git -C /repo apply "$P" || { echo "patch does not apply"; exit 3; }
-./check "$ID" --tier "$TIER" 2>&1 | grep -E "VIOLATION|KNOWN|MACHINERY|^C[0-9]+ \[" | head -8
+VERIF_NO_EVIDENCE=1 ./check "$ID" --tier "$TIER" 2>&1 | grep -E "VIOLATION|KNOWN|MACHINERY|^C[0-9]+ \[" | head -8
 git -C /repo checkout -- . 
 git -C /repo status --short | head -3
